@@ -132,3 +132,46 @@ Fixpoint spec_update (aid : N) (l : limits) (p : list entry) : out :=
 
 Definition is_report (o : op) : bool := match o with Report _ _ => true | _ => false end.
 Definition is_prepare (o : op) : bool := match o with Prepare _ => true | _ => false end.
+
+(* ---- the thread's decimal context ------------------------------------ *)
+(* What survives between calls in one thread besides the objects: the ambient
+   decimal context - signal flags raised by earlier arithmetic (Decimal("abc")
+   leaves InvalidOperation behind before the code turns it into FormatError)
+   and whatever the CALLER configured (traps, precision, rounding, Emax, ...).
+   The repaired code never reads it: it rounds in a context of its own.  The
+   machine below carries it along explicitly so that this can be stated. *)
+Record ambient := mkAmb { amb_flags : list N; amb_settings : list N }.
+
+Inductive aop :=
+| ASet (a : ambient)                              (* the caller changes its context *)
+| ACall (ca : attrs) (e : list N * reading).      (* check_convert_value(value, char) *)
+
+(* signals a call leaves behind (3 = InvalidOperation from a rejected reading) *)
+Definition after_call (a : ambient) (e : list N * reading) : ambient :=
+  match snd e with
+  | RReject => mkAmb (3%N :: amb_flags a) (amb_settings a)
+  | _ => a
+  end.
+
+Definition astep (a : ambient) (o : aop) : ambient * option (res cerr cval) :=
+  match o with
+  | ASet a' => (a', None)
+  | ACall ca e => (after_call a e, Some (convert_for ca e))
+  end.
+
+Fixpoint arun (a : ambient) (h : list aop) : list (res cerr cval) :=
+  match h with
+  | [] => []
+  | o :: r => match astep a o with
+              | (a', Some x) => x :: arun a' r
+              | (a', None) => arun a' r
+              end
+  end.
+
+(* the calls of a history, each judged on its own *)
+Fixpoint acalls (h : list aop) : list (res cerr cval) :=
+  match h with
+  | [] => []
+  | ASet _ :: r => acalls r
+  | ACall ca e :: r => convert_for ca e :: acalls r
+  end.
